@@ -32,8 +32,8 @@ ResultOk(r) ==
 Allowed(r) == Confined(r) /\ ResultOk(r)
 
 Init == l = 1
-Observe == l <= Len(Rec) /\ Allowed(Rec[l]) /\ l' = l + 1
-Reject  == /\ l <= Len(Rec) /\ ~Allowed(Rec[l])
+Observe == l <= Len(Rec) /\ (Allowed(Rec[l]) = TRUE) /\ l' = l + 1
+Reject  == /\ l <= Len(Rec) /\ (Allowed(Rec[l]) = FALSE)
            /\ PrintT(<<"REJECT", ToJson([id |-> Rec[l].id, confined |-> Confined(Rec[l]), result |-> ResultOk(Rec[l])])>>)
            /\ l' = l + 1
 Next == Observe \/ Reject
